@@ -13,6 +13,12 @@ use std::io::BufRead;
 
 use super::{Deserializable, DeserializationError};
 
+// CONSTANTS
+// ================================================================================================
+
+/// Maximum number of elements for which [ByteReader::read_many] reserves memory up front.
+const MAX_PREALLOCATED_ELEMENTS: usize = 1024;
+
 // BYTE READER TRAIT
 // ================================================================================================
 
@@ -191,7 +197,9 @@ pub trait ByteReader {
         Self: Sized,
         D: Deserializable,
     {
-        let mut result = Vec::with_capacity(num_elements);
+        // the number of elements may come from untrusted input: do not reserve memory for more
+        // elements than a modest bound before they have actually been read
+        let mut result = Vec::with_capacity(num_elements.min(MAX_PREALLOCATED_ELEMENTS));
         for _ in 0..num_elements {
             let element = D::read_from(self)?;
             result.push(element)
